@@ -1,11 +1,13 @@
 import RoaringModel.Lemmas.MiscWord
 import RoaringModel.Ser
 import RoaringModel.SpecLsb0
+import RoaringModel.Inv
 /-!
 # Well-formedness (as a `Prop`, the same predicate as `Driver/Core.lean bitmapWF`) and the
 # container-level abstraction facts needed by C20 / C16 / C17
 
-Local copy: the coordinator builds the shared `WF` in parallel; the definitions are the ones of DESIGN §4.
+Local copy of the DESIGN §4 predicate; `bitmapWF_iff` / `storeWF_iff` below prove it equivalent to the shared
+`Bitmap.WF` / `Store.WF` of `Inv.lean`, and the property theorems are stated with the shared one.
 -/
 namespace Roaring.MiscLemmas
 open Roaring
@@ -18,6 +20,27 @@ def BitmapWF (b : Bitmap) : Prop :=
   (b.map (·.key)).Pairwise (· < ·) ∧ ∀ c ∈ b, c.key < 65536 ∧ StoreWF c.store
 
 theorem W_eq : W = 2 ^ 64 := by decide
+
+/-- the local predicate is the shared `Store.WF` -/
+theorem storeWF_iff (s : Store) : StoreWF s ↔ s.WF := by
+  cases s with
+  | array v =>
+    simp only [StoreWF, Store.WF, Arr.Inv, Roaring.Sorted]
+    constructor
+    · rintro ⟨h1, h2, h3, h4⟩; exact ⟨⟨h1, h2⟩, h3, h4⟩
+    · rintro ⟨⟨h1, h2⟩, h3, h4⟩; exact ⟨h1, h2, h3, h4⟩
+  | bitmap b =>
+    simp only [StoreWF, Store.WF, W_eq]
+    constructor
+    · rintro ⟨h1, h2, h3, h4⟩; exact ⟨⟨h1, h2, h3⟩, h4⟩
+    · rintro ⟨⟨h1, h2, h3⟩, h4⟩; exact ⟨h1, h2, h3, h4⟩
+
+/-- the local predicate is the shared `Bitmap.WF` -/
+theorem bitmapWF_iff (b : Bitmap) : BitmapWF b ↔ b.WF := by
+  unfold BitmapWF Bitmap.WF Container.WF
+  constructor
+  · rintro ⟨h1, h2⟩; exact ⟨h1, fun c hc => ⟨(h2 c hc).1, (storeWF_iff _).1 (h2 c hc).2⟩⟩
+  · rintro ⟨h1, h2⟩; exact ⟨h1, fun c hc => ⟨(h2 c hc).1, (storeWF_iff _).2 (h2 c hc).2⟩⟩
 
 theorem BitmapWF.tail {c : Container} {cs : Bitmap} (h : BitmapWF (c :: cs)) : BitmapWF cs := by
   have h1 := h.1
